@@ -6,7 +6,7 @@
    setter and re-arms).  On the unrepaired code both statements are false (nested silent()
    blocks; reset after a completion): see notes/C19.md for the failing histories. *)
 From Coq Require Import ZArith List Lia Bool Sorted.
-From PV Require Import C19.Model C19.Spec C19.Proofs C19.Proofs2 C19.Proofs3 C19.Proofs4.
+From PV Require Import C19.Model C19.Spec C19.Proofs C19.Proofs2 C19.Proofs3 C19.Proofs4 C19.Proofs5.
 Import ListNotations.
 Open Scope Z_scope.
 
@@ -276,3 +276,55 @@ Proof. vm_compute. reflexivity. Qed.
 Example C19_ex_raise_single : (* single: f0 is the only call; the raiser is not reached *)
   spec_emit_x ex_behx ex_histx 0 1 7 (Some true) = XEmit [mkcall f0 1 7] (RSingle 7).
 Proof. vm_compute. reflexivity. Qed.
+
+(* ---------------------------------------------------------------------------------------------
+   Stage 3.  Progress reporter: the checker of the correspondence is EXACT, and accessors.
+
+   [progress_spec_b h obs] (Spec.v) is what the correspondence evaluates on the announcements
+   observed from phylib (clause 26).  It accepts obs iff obs has one entry per operation and entry
+   k tells whether completion is announced during operation k in the sense of C19_progress (the
+   statement): soundness (->) and completeness (<-) of the checker. *)
+Theorem C19_progress_checker_exact : forall (h : list pop) (obs : list bool),
+  progress_spec_b h obs = true <->
+  (length obs = length h /\
+   forall k o, nth_error h k = Some o -> (nth k obs false = true <-> Completes (firstn k h) o)).
+Proof. exact progress_checker_exact. Qed.
+Print Assumptions C19_progress_checker_exact.
+
+(* ... equivalently: exactly the announcement trace the executable model produces *)
+Theorem C19_progress_checker_model : forall (h : list pop) (obs : list bool),
+  progress_spec_b h obs = true <-> obs = map (existsb is_cev) (pouts pinit h).
+Proof. exact progress_checker_model. Qed.
+Print Assumptions C19_progress_checker_model.
+
+(* is_complete() after history p: value >= maximum, read on the history; it is true whenever an
+   announcement is pending (announced and not re-armed since), and right after a value update it
+   is true exactly when that update reaches the maximum *)
+Theorem C19_is_complete : forall (p : list pop),
+  is_complete (pexec pinit p) = (value_after p >=? max_after p) /\
+  (Pending p -> is_complete (pexec pinit p) = true) /\
+  (forall o, is_update o = true -> (is_complete (pexec pinit (p ++ [o])) = true <-> Reaches p o)).
+Proof. exact is_complete_reading. Qed.
+Print Assumptions C19_is_complete.
+
+(* keyword arguments of increment / set_complete: the state evolves as without them, and every
+   event of the operation -- progress AND complete -- carries exactly those keyword arguments
+   (none for the value setter); so all the theorems above apply to the events with the keyword
+   arguments erased *)
+Theorem C19_kwargs_passthrough : forall (K : Type) (nokw : K) (s : pstate) (o : popk K),
+  pstep_k nokw s o =
+  (fst (pstep s (pk_op o)), map (fun e => (e, kw_of nokw o)) (snd (pstep s (pk_op o)))).
+Proof. exact kwargs_passthrough. Qed.
+Print Assumptions C19_kwargs_passthrough.
+
+Example C19_ex_checker :     (* the trace of C19_ex_progress is accepted, a trace with a repeated announcement is not *)
+  let h := [PSetMax 1; PSetValue 1; PSetValue 1; PReset None; PSetValue 1; PReset (Some 3); PSetComplete] in
+  progress_spec_b h [false; true; false; false; true; false; true] = true /\
+  progress_spec_b h [false; true; true; false; true; false; true] = false /\
+  progress_spec_b h [false; true; false; false; false; false; true] = false.
+Proof. vm_compute. repeat split. Qed.
+Example C19_ex_kwargs :
+  snd (pstep_k 0 (mkp 1 2 false) (mkpk PInc 7)) = [(EvProgress 2 2, 7); (EvComplete, 7)] /\
+  snd (pstep_k 0 (mkp 1 2 false) (mkpk (PSetValue 2) 7)) = [(EvProgress 2 2, 0); (EvComplete, 0)] /\
+  is_complete (pexec pinit [PSetMax 2; PInc]) = false /\ is_complete (pexec pinit [PSetMax 2; PInc; PInc]) = true.
+Proof. vm_compute. repeat split. Qed.
